@@ -210,6 +210,8 @@ def interp_model(x, xp, fp, left=None, right=None):
     xp = list(xp)
     fp = list(fp)
     n = len(xp)
+    if n == 0:
+        raise ValueError('array of sample points is empty')      # as numpy
     lv = fp[0] if left is None else left
     rv = fp[-1] if right is None else right
 
